@@ -64,6 +64,7 @@ let con_sys k = sys_of_cons [k]
 type fam = Bds | Oct | Box | Poly | Grid | Gens
 type obj = { kind : string; fam : fam; car : string; dim : int; flags : string; empty_marked : bool;
              rows : q ext list list;            (* matrix rows (Bds / Oct) *)
+             itvs : itv list;                   (* intervals (Box) *)
              gamma : sys; cons : con list; ok : int; bad : string option }
 
 let fam_of kind = match String.sub kind 0 3 with
@@ -87,6 +88,7 @@ let parse_st line : int * obj =
   let tag = next c in
   let empty_marked = (tag = "E") in
   let rows = ref [] in
+  let itvs_r = ref [] in
   let gamma_pre =
     match tag with
     | "E" -> `Sys false_sys
@@ -103,6 +105,7 @@ let parse_st line : int * obj =
         let b s = if s = "-inf" || s = "+inf" then BInf else
             let op = (s.[0] = 'o') in BVal (q_of_string (String.sub s 1 (String.length s - 1)), op) in
         let itvs = List.init n (fun _ -> let lo = next c in let hi = next c in if lo = "e" then IEmpty else IBounds (b lo, b hi)) in
+        itvs_r := itvs;
         `Sys (sys_of_box itvs)
     | "P" -> `Cons
     | "G" -> let e = nexti c in if e = 1 then `Sys false_sys else `Grid
@@ -121,7 +124,7 @@ let parse_st line : int * obj =
                let gs = read_gens c dim in (if has_point gs then cons_of_gens (nat dim) gs else false_sys), [] in
   if next c <> "ok" then raise (Syntax "expected ok");
   let ok = nexti c in
-  id, { kind; fam; car = car_of kind; dim; flags; empty_marked; rows = !rows; gamma; cons; ok; bad = !bad }
+  id, { kind; fam; car = car_of kind; dim; flags; empty_marked; rows = !rows; itvs = !itvs_r; gamma; cons; ok; bad = !bad }
 
 (* ---- bookkeeping ---- *)
 let prop = ref "C03"
@@ -319,7 +322,15 @@ let ref_op (x : obj) (c : cur) (ret : string option) : refres =
 
 (* ---- checks on a state ---- *)
 let report_ref : (string -> string -> verdict -> unit) ref = ref (fun _ _ _ -> ())
-let rep kind line v = !report_ref kind line v
+let tags : string ref = ref ""
+let lazy_tags : (unit -> string) ref = ref (fun () -> "")
+let rep kind line v = !report_ref kind line (match v with Fail d -> let t = !tags ^ (!lazy_tags) () in if t <> "" then Fail (d ^ " tags:" ^ t) else v | v -> v)
+let b2s b = if b then "1" else "0"
+let ob2s = function Some true -> "1" | Some false -> "0" | None -> "u"
+let obj_tags pfx (o : obj) =
+  let ne = nonempty o.gamma in
+  Printf.sprintf " %sempty=%s %smarked=%s %suniverse=%s" pfx (match ne with Some b -> b2s (not b) | None -> "u") pfx (b2s o.empty_marked)
+    pfx (ob2s (timed (fun () -> q_is_universe (dn [ o.gamma ] o.dim) o.gamma) None))
 
 let check_state_basic line (o : obj) =
   if is_main o then begin
@@ -357,10 +368,10 @@ let check_result line (tag : string) (res : obj) (r : refres) (pre : sys option)
 (* closure model vs implementation matrix (BD shapes) *)
 let qle_ext (a : q ext) (b : q ext) = match a, b with _, PInf -> true | PInf, Fin _ -> false | Fin x, Fin y -> qle_bool x y
 let check_closure_model line (pre : obj) (post : obj) =
-  if pre.fam = Bds && not pre.empty_marked && pre.rows <> [] then begin
-    let n = List.length pre.rows - 1 in
+  if (pre.fam = Bds || pre.fam = Oct) && not pre.empty_marked && pre.rows <> [] then begin
+    let n = (if pre.fam = Bds then List.length pre.rows - 1 else List.length pre.rows / 2) in
     let m = mat_of_rows pre.rows in
-    let model = timed (fun () -> Some (closure qc (nat n) m)) None in
+    let model = timed (fun () -> Some (if pre.fam = Bds then closure qc (nat n) m else strong_closure qc (nat n) m)) None in
     match model with
     | None -> rep "C03:closure-model" line Undecided
     | Some None ->
@@ -372,13 +383,13 @@ let check_closure_model line (pre : obj) (post : obj) =
         bump "closure-model:nonempty";
         if post.empty_marked then rep "C03:closure-model/empty" line (Fail "implementation marks empty a shape whose exact closure is non-empty")
         else begin
-          let mrows = rows_of_mat (nat n) mm in
+          let mrows = (if pre.fam = Bds then rows_of_mat (nat n) mm else rows_of_oct (nat n) mm) in
           let all2 f a b = List.for_all2 (fun ra rb -> List.for_all2 f ra rb) a b in
           (* entrywise: impl >= exact closure (never below: would cut points) *)
           rep "C03:closure-model/ge" line (if all2 qle_ext mrows post.rows then Ok else Fail "an entry of the implementation's closed matrix is below the exact shortest-path bound");
-          if pre.car = "q" || pre.car = "z" then
+          if pre.car = "q" || (pre.car = "z" && pre.fam = Bds) then
             rep "C04:closure-model/eq" line (if all2 qle_ext post.rows mrows then Ok else Fail "an entry of the implementation's closed matrix is above the exact shortest-path bound");
-          if !prop = "C04" then
+          if !prop = "C04" && pre.fam = Bds then
             rep "C04:closure-model/closed_b" line (if closed_b (nat n) mm then Ok else Fail "model closure is not closed (model bug)")
         end
   end
@@ -421,7 +432,19 @@ let ref_query line (x : obj) (c : cur) (ans : string list) =
   | "is_topologically_closed" -> cmpb ~definite:[] (lazy (timed (fun () -> q_is_closed dnx xs) None))
   | "contains" -> let y = arg () in cmpb (lazy (incl y.gamma xs))
   | "strictly_contains" -> let y = arg () in cmpb (lazy (timed (fun () -> q_strictly_contains (dn [ xs; y.gamma ] n) xs y.gamma) None))
-  | "is_disjoint_from" -> let y = arg () in cmpb (lazy (timed (fun () -> q_is_disjoint (dn [ xs; y.gamma ] n) xs y.gamma) None))
+  | "is_disjoint_from" -> let y = arg () in
+      (* does the extracted model of the code (closure of both, then the pairwise test) give the same answer? *)
+      let model =
+        if x.rows = [] || y.rows = [] || x.empty_marked || y.empty_marked then "na" else
+        (match x.fam with
+         | Bds -> let n = nat (List.length x.rows - 1) in
+             (match timed (fun () -> Some (closure qc n (mat_of_rows x.rows), closure qc n (mat_of_rows y.rows))) None with
+              | Some (Some a, Some b) -> b2s (code_is_disjoint qc n a b) | Some _ -> "1" | None -> "u")
+         | Oct -> let n = nat (List.length x.rows / 2) in
+             ob2s (timed (fun () -> Some (oct_is_disjoint_op qc n (mat_of_rows x.rows) (mat_of_rows y.rows))) None)
+         | _ -> "na") in
+      tags := !tags ^ " model_answer=" ^ model;
+      cmpb (lazy (timed (fun () -> q_is_disjoint (dn [ xs; y.gamma ] n) xs y.gamma) None))
   | "equals" -> let y = arg () in cmpb (lazy (equiv xs y.gamma))
   | "constrains" -> let v = nexti c in cmpb ~definite:[ false ] (lazy (timed (fun () -> q_constrains dnx (nat v) xs) None))
   | "bounds_from_above" -> let e = read_expr_n c in cmpb (lazy (timed (fun () -> q_bounds_above (nat (max n (sys_dim xs))) e xs) None))
@@ -440,12 +463,21 @@ let ref_query line (x : obj) (c : cur) (ans : string list) =
        | _ -> raise (Syntax "expected ans n"))
   | "relation_with_con" ->
       let k = read_con c n in
+      (if x.fam = Box then
+         match List.filter (fun (_, a) -> a <> Z0) (List.mapi (fun i a -> (i, a)) k.ccoefs) with
+         | [ (v, a) ] when v < List.length x.itvs ->
+             (match List.nth x.itvs v with
+              | IBounds (lo, hi) ->
+                  let neg = (match a with Zneg _ -> true | _ -> false) in
+                  tags := !tags ^ Printf.sprintf " con_is_upper_bound=%s itv_upper_unbounded=%s itv_lower_unbounded=%s" (b2s neg) (b2s (hi = BInf)) (b2s (lo = BInf))
+              | IEmpty -> tags := !tags ^ " itv_empty=1")
+         | _ -> ());
       (match ans with
        | [ "ans"; "rel"; d; i; s; si ] ->
            let one name r v =
              (* a reported relation must hold (C03); for exact carriers the four documented relations are reported exactly (C04) *)
              let rv = timed (fun () -> Lazy.force r) None in
-             if b01 v then rep ("C03:relation_with_con/" ^ name) line (match rv with Some b -> if b then Ok else Fail (name ^ " reported but false") | None -> Undecided);
+             if b01 v && name <> "strictly_intersects" then rep ("C03:relation_with_con/" ^ name) line (match rv with Some b -> if b then Ok else Fail (name ^ " reported but false") | None -> Undecided);
              if exact then rep ("C04:relation_with_con/" ^ name) line (match rv with Some b -> if b = b01 v then Ok else Fail (Printf.sprintf "%s: implementation %s, verified reference %b" name v b) | None -> Undecided) in
            one "is_disjoint" (lazy (rel_is_disjoint dnx xs k)) d;
            one "is_included" (lazy (rel_is_included dnx xs k)) i;
@@ -460,6 +492,7 @@ let ref_query line (x : obj) (c : cur) (ans : string list) =
       end else raise (Skip "relation_with a non-point generator")
   | "maximize" | "minimize" | "maximize_nw" | "minimize_nw" ->
       let e = read_expr_n c in
+      tags := !tags ^ Printf.sprintf " expr_vars=%d" (List.length (nz e));
       let mx = (q = "maximize" || q = "maximize_nw") in
       let nn = nat (max n (max (sys_dim xs) (List.length e.lcoefs))) in
       let r = timed (fun () -> if mx then q_maximize nn e xs else q_minimize nn e xs) None in
@@ -514,7 +547,8 @@ let ref_new (o : obj) (how : string) (c : cur) : refres =
       let src = get (nexti c) in let cx = next c in
       (* every complexity class must be sound; the smallest enclosing element is documented for ANY_COMPLEXITY
          (and whenever the source is itself a box / BD shape / octagon / grid / generator system) *)
-      let best = (cx = "any") || (match src.fam with Poly -> false | _ -> true) in
+      let inexact_src = (match src.fam with Bds | Oct | Box -> src.car = "i8" || src.car = "d" | _ -> false) in
+      let best = not inexact_src && ((cx = "any") || (match src.fam with Poly -> false | _ -> true)) in
       { rdim = src.dim; pieces = [ src.gamma ]; claim = (if best then Best else Sound); within_pre = false }
   | _ -> raise (Skip ("new " ^ how))
 
@@ -547,7 +581,7 @@ let () =
        | "case" :: id :: _ -> case := id; step := 0; Hashtbl.reset pool; incr stats_cases; ignore (rdo ())
        | "end" :: _ -> ignore (rdo ())
        | "new" :: _ :: kind :: _ :: how :: rest ->
-           incr step; incr stats_steps;
+           incr step; incr stats_steps; tags := ""; lazy_tags := (fun () -> "");
            (match expect_res () with
             | `Exn cls -> bump ("new-exn:" ^ how ^ ":" ^ cls);
                 (* the harness binds the id to the universe of that kind *)
@@ -563,7 +597,7 @@ let () =
                    with Skip w -> bump ("unmodelled:new:" ^ how))
                 end)
        | "copy" :: _ :: b :: _ ->
-           incr step; incr stats_steps;
+           incr step; incr stats_steps; tags := ""; lazy_tags := (fun () -> "");
            ignore (expect_res ());
            let id, o = parse_st (rdo1 ()) in
            let y = get (int_of_string b) in
@@ -585,6 +619,13 @@ let () =
            let stl = ref (rdo1 ()) in
            let id, post = parse_st !stl in
            let pre = get (int_of_string ids) in
+           tags := "";
+           lazy_tags := (fun () ->
+             obj_tags "recv_" pre ^
+             (match rest with
+              | a :: _ when List.mem name [ "intersection_assign"; "upper_bound_assign"; "difference_assign"; "concatenate_assign"; "time_elapse_assign"; "upper_bound_assign_if_exact"; "assign" ] ->
+                  (try obj_tags "arg_" (get (int_of_string a)) with _ -> "")
+              | _ -> ""));
            bump ("op:" ^ name); bump ("opk:" ^ pre.kind ^ ":" ^ name); bump ("flags:" ^ post.kind ^ ":" ^ post.flags);
            check_state_basic line post;
            (match r with
@@ -624,7 +665,7 @@ let () =
                 with Skip w -> bump ("unmodelled:" ^ name)));
            Hashtbl.replace pool id post
        | "stall" :: _ ->
-           incr step;
+           incr step; tags := ""; lazy_tags := (fun () -> "");
            let rec loop () = match rdo () with
              | Some "endst" | None -> ()
              | Some l ->
@@ -644,6 +685,8 @@ let () =
             | _ ->
               (try
                 bump ("qry:" ^ List.hd rest);
+                tags := "";
+                (let xo = get (int_of_string ids) in lazy_tags := (fun () -> obj_tags "recv_" xo));
                 ref_query line (get (int_of_string ids)) { t = rest } ans
               with Skip _ -> bump ("unmodelled:qry:" ^ List.hd rest)))
        | _ -> raise (Syntax ("unknown case line: " ^ line)))
